@@ -1,6 +1,7 @@
 import OrsoVerif.Lemmas.IsoText
 import OrsoVerif.Lemmas.IsoSafe
 import OrsoVerif.Lemmas.IsoEpoch
+import OrsoVerif.Lemmas.IsoEpochTotal
 /-!
 # C08 — Timestamp parsing round-trips ISO-8601 and epoch forms and is total
 
@@ -112,6 +113,48 @@ theorem epoch_utc (dt : DateTime) (h : validDateTime dt = true) :
     · simp only [parseIso, parseIsoWith, body, epoch, c3, if_true, intOfFloat, hb, bind_ok, hf]
     · simp only [parseIso, parseIsoWith, body, epoch, c4, if_true, intOfFloat, hb, bind_ok, hf]
 
+/-- **Every integer, read as Unix seconds: sound inside the representable range, None outside.**
+For every `n`: if `minEpoch ≤ n ≤ maxEpoch` (0001-01-01T00:00:00 … 9999-12-31T23:59:59) the parser
+returns a valid whole-second date-time `dt` with `toEpoch dt = n` (civil-from-days is sound, not
+only an inverse on renderings); otherwise it returns `None` — whichever of `OverflowError`
+(outside 64-bit `time_t`), `OSError` (year does not fit the C `tm`) or `ValueError` the platform
+raises at that magnitude is covered by the extracted `except` tuple.  The same holds for
+`numpy.int64` input and for every float whose truncation is `n`. -/
+theorem epoch_total (n : Int) :
+    (minEpoch ≤ n ∧ n ≤ maxEpoch →
+      ∃ dt, validDateTime dt = true ∧ dt.micro = 0 ∧ toEpoch dt = n ∧
+        parseIso (.int n) = .value dt ∧ parseIso (.npInt n) = .value dt ∧
+        ∀ b, floatTrunc b = .fin n → parseIso (.float b) = .value dt ∧ parseIso (.npFloat b) = .value dt) ∧
+    (n < minEpoch ∨ maxEpoch < n →
+      parseIso (.int n) = .none ∧ parseIso (.npInt n) = .none ∧
+        ∀ b, floatTrunc b = .fin n → parseIso (.float b) = .none ∧ parseIso (.npFloat b) = .none) ∧
+    minEpoch = toEpoch ⟨1, 1, 1, 0, 0, 0, 0⟩ ∧ maxEpoch = toEpoch ⟨9999, 12, 31, 23, 59, 59, 0⟩ := by
+  have c1 : Gen.Iso.epochTypes.contains "int" = true := by decide
+  have c2 : Gen.Iso.epochTypes.contains "numpy.int64" = true := by decide
+  have c3 : Gen.Iso.epochTypes.contains "float" = true := by decide
+  have c4 : Gen.Iso.epochTypes.contains "numpy.float64" = true := by decide
+  obtain ⟨hin, hout⟩ := fromTimestamp_spec n
+  refine ⟨?_, ?_, by decide, by decide⟩
+  · intro hr
+    obtain ⟨dt, hf, hv, hm, he⟩ := hin hr
+    refine ⟨dt, hv, hm, he, ?_, ?_, ?_⟩
+    · simp only [parseIso, parseIsoWith, body, epoch, c1, if_true, bind_ok, hf]
+    · simp only [parseIso, parseIsoWith, body, epoch, c2, if_true, bind_ok, hf]
+    · intro b hb
+      constructor
+      · simp only [parseIso, parseIsoWith, body, epoch, c3, if_true, intOfFloat, hb, bind_ok, hf]
+      · simp only [parseIso, parseIsoWith, body, epoch, c4, if_true, intOfFloat, hb, bind_ok, hf]
+  · intro hr
+    obtain ⟨e, hf⟩ := hout hr
+    have hc : caughtBy Gen.Iso.caught e = true := fromTimestamp_safe n e hf
+    refine ⟨?_, ?_, ?_⟩
+    · simp only [parseIso, parseIsoWith, body, epoch, c1, if_true, bind_ok, hf, bind_error, hc]
+    · simp only [parseIso, parseIsoWith, body, epoch, c2, if_true, bind_ok, hf, bind_error, hc]
+    · intro b hb
+      constructor
+      · simp only [parseIso, parseIsoWith, body, epoch, c3, if_true, intOfFloat, hb, bind_ok, hf, bind_error, hc]
+      · simp only [parseIso, parseIsoWith, body, epoch, c4, if_true, intOfFloat, hb, bind_ok, hf, bind_error, hc]
+
 /-- **All-digit text is read as the integer it denotes** (up to CPython's 4300-digit limit). -/
 theorem digits_text (ds : List Char) (hne : ds ≠ []) (h : ∀ c ∈ ds, c.isDigit = true)
     (hlen : ds.length ≤ maxStrDigits) :
@@ -144,20 +187,31 @@ theorem other_inputs_none :
     ∀ s : List Char, isDigitStr s = false → (s.length < 10 ∨ 33 < s.length) → parseIso (.str s) = .none := by
   refine ⟨rfl, ?_⟩
   intro s hd hl
-  have : ¬ (Gen.Iso.lenLo ≤ s.length ∧ s.length ≤ Gen.Iso.lenHi) := by
-    simp only [Gen.Iso.lenLo, Gen.Iso.lenHi]; omega
+  have : ¬ Gen.Iso.lenWindow (s.length : Int) := by
+    unfold Gen.Iso.lenWindow; omega
   simp only [parseIso, parseIsoWith, body, strBody, hd, textPath, this, if_false, Bool.false_eq_true]
 
-/-- **The DATE, TIME and TIMESTAMP casts agree with the parser**: they return the parser's value
-(its date / its time / itself) and raise `ValueError` exactly when the parser yields `None`. -/
+/-- **The DATE and TIMESTAMP casts agree with the parser** for every input: they return the
+parser's value (its date / itself) and raise `ValueError` exactly when the parser yields `None`.
+The TIME cast does the same (the value's time of day) for every input that is not already a
+`datetime.time`; a native `time` value is returned unchanged (`parse_time`'s identity branch). -/
 theorem casts_agree (i : Input) :
     (∀ dt, parseIso i = .value dt →
       Iso.cast .timestamp i = .timestamp dt ∧ Iso.cast .date i = .date dt.year dt.month dt.day ∧
-      Iso.cast .time i = .time dt.hour dt.minute dt.second dt.micro) ∧
-    (parseIso i = .none → ∀ k, Iso.cast k i = .raises .valueError) := by
-  constructor
-  · intro dt h; simp [Iso.cast, h]
-  · intro h k; simp [Iso.cast, h]
+      ((∀ H M S us, i ≠ .time H M S us) → Iso.cast .time i = .time dt.hour dt.minute dt.second dt.micro)) ∧
+    (parseIso i = .none →
+      Iso.cast .timestamp i = .raises .valueError ∧ Iso.cast .date i = .raises .valueError ∧
+      ((∀ H M S us, i ≠ .time H M S us) → Iso.cast .time i = .raises .valueError)) ∧
+    (∀ H M S us, Iso.cast .time (.time H M S us) = .time H M S us ∧ parseIso (.time H M S us) = .none) := by
+  refine ⟨?_, ?_, fun _ _ _ _ => ⟨rfl, rfl⟩⟩
+  · intro dt h
+    refine ⟨by simp [Iso.cast, h], by simp [Iso.cast, h], ?_⟩
+    intro hne
+    cases i <;> first | (exact absurd rfl (hne _ _ _ _)) | (simp [Iso.cast, h])
+  · intro h
+    refine ⟨by simp [Iso.cast, h], by simp [Iso.cast, h], ?_⟩
+    intro hne
+    cases i <;> first | (exact absurd rfl (hne _ _ _ _)) | (simp [Iso.cast, h])
 
 /-! Non-vacuity and documented boundaries (concrete inputs). -/
 
